@@ -85,6 +85,8 @@ void ezc3d::c3d::print() const
 void ezc3d::c3d::write(const std::string& filePath) const
 {
     std::fstream f(filePath, std::ios::out | std::ios::binary);
+    if (!f.is_open())
+        throw std::ios_base::failure("Could not open the c3d file for writing");
 
     // Write the header
 #ifdef MELUND_EZC3D_VERIF
@@ -111,6 +113,8 @@ void ezc3d::c3d::write(const std::string& filePath) const
 #ifdef MELUND_EZC3D_VERIF
     MELUND_EZC3D_VERIF_HOOK(24, f.fail() ? 1 : 0, 0);
 #endif
+    if (f.fail())
+        throw std::ios_base::failure("Could not write the c3d file");
 }
 
 void ezc3d::c3d::readFile(unsigned int nByteToRead, char * c, int nByteFromPrevious,
